@@ -36,3 +36,12 @@ package zerocopy
 
 //@ func (ServerPacker).ServerPackerInfo
 //@   dispatch
+
+//@ func (UDPSessionServer).SessionInfo
+//@   dispatch
+
+//@ func (UDPSessionServer).NewUnpacker
+//@   dispatch
+
+//@ func (ServerUnpacker).UnpackInPlace
+//@   dispatch
